@@ -17,6 +17,8 @@
 #include <upipe/upool.h>
 #include <upipe/urefcount.h>
 #include <upipe/uqueue.h>
+#include <upipe/udeal.h>
+#include "../sim/upump_sim.h"
 
 #include <stdlib.h>
 #include <string.h>
@@ -37,6 +39,8 @@ enum {
     V_REF_NEVER,        /* all references released, destructor did not run */
     V_REF_AFTER,        /* object touched after destruction */
     V_TERMINATION,      /* an operation running alone does not finish */
+    V_DEAL_EXCLUSION,   /* two holders inside the dealer's critical section */
+    V_DEAL_STARVED,     /* everybody asleep, resource free, a waiter left out */
 };
 
 static const char *class_name(int cls)
@@ -54,6 +58,8 @@ static const char *class_name(int cls)
     case V_REF_NEVER: return "destructor_never";
     case V_REF_AFTER: return "use_after_destroy";
     case V_TERMINATION: return "no_termination";
+    case V_DEAL_EXCLUSION: return "dealer_two_holders";
+    case V_DEAL_STARVED: return "dealer_waiter_not_woken";
     }
     return NULL;
 }
@@ -63,6 +69,7 @@ enum {
     OP_PUSH = 1, OP_POP, OP_ALLOC, OP_FREE,         /* C07 */
     OP_QPUSH,                                       /* C08 */
     OP_USE, OP_RELEASE,                             /* C09 */
+    OP_DEAL_ENTER, OP_DEAL_ABORT,                   /* C08 dealer */
 };
 
 static const char *op_name(int code)
@@ -75,6 +82,8 @@ static const char *op_name(int code)
     case OP_QPUSH: return "qpush";
     case OP_USE: return "use";
     case OP_RELEASE: return "release";
+    case OP_DEAL_ENTER: return "deal_enter";
+    case OP_DEAL_ABORT: return "deal_start_then_abort";
     }
     return "?";
 }
@@ -747,6 +756,131 @@ out:
         sim_violation(SIM_V_CRASH, "descriptor leak");
 }
 
+
+/* ============================================================ C08 dealer */
+static struct {
+    struct udeal deal;
+    const struct sim_plan *plan;
+    int ncont;
+    int in_cs;                  /* holders inside the critical section */
+    int entered[4], wanted[4], aborted[4];
+    struct upump *pump[4];
+    bool waiting[4];            /* started, callback has not got in yet */
+    int cs_points[4];
+} dl;
+
+static void dl_cb(struct upump *upump)
+{
+    int me = (int)(intptr_t)upump->opaque;
+    if (!udeal_grab(&dl.deal)) {
+        SIM_PROBE("c08_deal_grab_refused");
+        return;
+    }
+    if (++dl.in_cs > 1)
+        sim_violation(V_DEAL_EXCLUSION, "contender %d entered while another holds the resource", me);
+    sim_ev("deal_in", (uint64_t)me, 0);
+    for (int i = 0; i < dl.cs_points[me]; i++)
+        sim_point(SIM_PT_USER, NULL);
+    dl.in_cs--;
+    sim_ev("deal_out", (uint64_t)me, 0);
+    dl.waiting[me] = false;
+    dl.entered[me]++;
+    udeal_yield(&dl.deal, upump);
+}
+
+static void dl_task(void *arg)
+{
+    int me = (int)(intptr_t)arg;
+    const struct sim_plan *plan = dl.plan;
+    struct upump_mgr *mgr = upump_sim_mgr_alloc(0, 0);
+    upump_sim_mgr_set_faults(mgr, (uint32_t)((uint64_t)plan->cfg[CFG_SPURIOUS] % 512), 0);
+    struct upump *upump = udeal_upump_alloc(&dl.deal, mgr, dl_cb, (void *)(intptr_t)me, NULL);
+    dl.pump[me] = upump;
+    for (int i = 0; i < plan->nops && !sim_violation_class(); i++) {
+        const struct sim_op *op = &plan->ops[i];
+        if (op->task != me)
+            continue;
+        if (op->code != OP_DEAL_ENTER && op->code != OP_DEAL_ABORT)
+            continue;
+        dl.cs_points[me] = 1 + (int)((uint64_t)op->a[0] % 3);
+        dl.waiting[me] = true;
+        dl.wanted[me]++;
+        udeal_start(&dl.deal, upump);
+        if (dl.waiting[me] && op->code == OP_DEAL_ABORT) {
+            /* gives up before its callback could get in */
+            dl.waiting[me] = false;
+            dl.wanted[me]--;
+            dl.aborted[me]++;
+            SIM_PROBE("c08_deal_aborted");
+            udeal_abort(&dl.deal, upump);
+            continue;
+        }
+        /* back to the event loop until the callback got in (it stops the
+         * watcher itself, the loop then has nothing left to wait for) */
+        upump_mgr_run(mgr, NULL);
+    }
+    upump_free(upump);
+    upump_mgr_release(mgr);
+}
+
+static void gen_c08_deal(struct sim_rng *r, struct sim_plan *p)
+{
+    p->cfg[CFG_KIND] = 1;       /* dealer scenario */
+    int n = 2 + (int)sim_rng_below(r, 2);
+    p->cfg[CFG_NTASKS] = n;
+    p->cfg[CFG_EINTR] = sim_rng_chance(r, 1, 3) ? 20 + sim_rng_below(r, 100) : 0;
+    p->cfg[CFG_SPURIOUS] = sim_rng_chance(r, 1, 3) ? 20 + sim_rng_below(r, 100) : 0;
+    for (int t = 0; t < n; t++) {
+        int k = 1 + (int)sim_rng_below(r, 3);
+        for (int i = 0; i < k; i++)
+            sim_plan_add(p, t, sim_rng_chance(r, 1, 6) ? OP_DEAL_ABORT : OP_DEAL_ENTER,
+                         sim_rng_below(r, 3), 0, 0, 0, 0, 0);
+    }
+}
+
+static void run_c08_deal(const struct sim_plan *plan)
+{
+    memset(&dl, 0, sizeof(dl));
+    dl.plan = plan;
+    dl.ncont = 1 + (int)((uint64_t)(plan->cfg[CFG_NTASKS] - 1) % 3);
+    sim_fd_set_eintr((uint32_t)((uint64_t)plan->cfg[CFG_EINTR] % 512));
+    sim_set_strategy(-1, 120);
+    if (!udeal_init(&dl.deal)) {
+        sim_violation(SIM_V_CRASH, "udeal_init failed");
+        return;
+    }
+    for (int t = 0; t < dl.ncont; t++)
+        sim_spawn(dl_task, (void *)(intptr_t)t, "contender", 512 * 1024);
+    enum sim_end end = sim_run(30000);
+    if (sim_violation_class())
+        return;
+    if (end == SIM_END_BUDGET) {
+        SIM_PROBE("c08_deal_budget_exhausted");
+        return;
+    }
+    if (end == SIM_END_QUIESCENT) {
+        int left = 0;
+        for (int t = 0; t < dl.ncont; t++)
+            if (dl.waiting[t])
+                left++;
+        sim_violation(V_DEAL_STARVED, "all contenders asleep, resource %s, %d waiter(s) "
+                      "never admitted (waiters=%u access=%u)",
+                      dl.in_cs ? "held" : "free", left,
+                      (unsigned)dl.deal.waiters, (unsigned)dl.deal.access);
+        return;
+    }
+    for (int t = 0; t < dl.ncont; t++)
+        if (dl.entered[t] != dl.wanted[t])
+            sim_violation(V_DEAL_STARVED, "contender %d entered %d times, wanted %d",
+                          t, dl.entered[t], dl.wanted[t]);
+    if (dl.deal.waiters != 0 || dl.deal.access != 0)
+        sim_violation(V_DEAL_STARVED, "dealer not back to rest: waiters=%u access=%u",
+                      (unsigned)dl.deal.waiters, (unsigned)dl.deal.access);
+    udeal_clean(&dl.deal);
+    if (!sim_violation_class() && sim_fd_open_count() != 0)
+        sim_violation(SIM_V_CRASH, "descriptor leak");
+}
+
 /* ===================================================================== C09 */
 static struct {
     struct urefcount ref;
@@ -861,14 +995,20 @@ static void run_c09(const struct sim_plan *plan)
 static void gen(const char *prop, struct sim_rng *r, struct sim_plan *p)
 {
     if (!strcmp(prop, "C07")) gen_c07(r, p);
-    else if (!strcmp(prop, "C08")) gen_c08(r, p);
+    else if (!strcmp(prop, "C08")) {
+        if (sim_rng_chance(r, 1, 3)) gen_c08_deal(r, p);
+        else gen_c08(r, p);
+    }
     else gen_c09(r, p);
 }
 
 static void run(const char *prop, const struct sim_plan *plan)
 {
     if (!strcmp(prop, "C07")) run_c07(plan);
-    else if (!strcmp(prop, "C08")) run_c08(plan);
+    else if (!strcmp(prop, "C08")) {
+        if (plan->cfg[CFG_KIND] == 1) run_c08_deal(plan);
+        else run_c08(plan);
+    }
     else run_c09(plan);
 }
 
